@@ -77,7 +77,9 @@ def generate(seed, tier):
     if kind == "single":
         L = rw.randrange(1, N + 1)
         fsing = rw.choice([0.0, 0.5 * cfg["fs"]]) if rw.random() < 0.12 else round(rw.uniform(0, 0.5) * cfg["fs"], 6)   # incl. DC and Nyquist
-        sc["single"] = {"f": fsing, "L": L} if rw.random() < 0.6 else {"f": fsing, "fres": cfg["fs"] / L}
+        r_ = rw.random()
+        sc["single"] = {"f": fsing, "L": L} if r_ < 0.5 else ({"f": fsing, "fres": cfg["fs"] / L} if r_ < 0.75 else
+                                                            {"f": fsing, "fres": cfg["fs"] / (L + round(rw.uniform(-0.45, 0.45), 3))})   # fs/fres not an integer
         cfg["band"] = None
     if kind == "band1":
         cfg["band"] = None
